@@ -19,6 +19,13 @@
       x/exchange/market.go   Market.Validate: only the required-attribute rule (ValidateReqAttrs)
       x/exchange/keeper/market.go  UpdateMarketAcceptingOrders / UpdateUserSettlementAllowed /
           UpdateMarketAcceptingCommitments (effect on the three flags only)
+      x/exchange/keeper/market.go  storeMarket (every setter: setAll*FlatFees / setAll*Ratios delete the
+          old entries first; setMarketAcceptingOrders / setUserSettlementAllowed /
+          setMarketAcceptingCommitments / setCommitmentSettlementBips / setIntermediaryDenom / setReqAttrs
+          write or delete the entry), the entries that configuration endpoints leave under a market
+          id that does not exist yet (MsgMarketUpdateAcceptingOrders / UpdateUserSettle /
+          UpdateAcceptingCommitments / UpdateIntermediaryDenom / ManageReqAttrs sent by the authority,
+          MsgGovCloseMarket, MsgGovManageFees: none of them checks that the market exists)
       cosmos-sdk types/coin.go  Coin.Validate / Coins.Validate (amount and order rules; denoms
           are assumed syntactically valid)
       x/exchange/msgs.go, orders.go  the fee / price rules of MsgCreateAsk/CreateBid/CommitFunds/
@@ -513,6 +520,110 @@ Definition step_stored (s : stored) (o : cfg_op) : stored :=
   | UFees f => manage_fees_stored s f
   | UAttrs a => match manage_req_attrs s a with Some s' => s' | None => s end
   end.
+
+(** ** Entries left under a market id before the market exists, and storeMarket over them *)
+
+(** The exchange store under an id nothing has touched: no table entry, no flag entry (a market
+    "accepts orders" unless the not-accepting-orders entry exists), no list, no bips. *)
+Definition blank_market : market :=
+  {| m_create_ask := []; m_create_bid := []; m_create_com := []; m_seller_flat := [];
+     m_seller_ratios := []; m_buyer_flat := []; m_buyer_ratios := [];
+     m_accepting_orders := true; m_user_settle := false; m_accepting_commitments := false;
+     m_req_ask := []; m_req_bid := []; m_req_com := []; m_bips := 0; m_interm := "" |}.
+Definition blank_stored : stored :=
+  {| s_mkt := blank_market; s_req_ask := []; s_req_bid := []; s_req_com := [] |}.
+
+Definition set_interm (m : market) (d : string) : market :=
+  {| m_create_ask := m_create_ask m; m_create_bid := m_create_bid m; m_create_com := m_create_com m;
+     m_seller_flat := m_seller_flat m; m_seller_ratios := m_seller_ratios m;
+     m_buyer_flat := m_buyer_flat m; m_buyer_ratios := m_buyer_ratios m;
+     m_accepting_orders := m_accepting_orders m; m_user_settle := m_user_settle m;
+     m_accepting_commitments := m_accepting_commitments m;
+     m_req_ask := m_req_ask m; m_req_bid := m_req_bid m; m_req_com := m_req_com m;
+     m_bips := m_bips m; m_interm := d |}.
+
+(** Configuration messages sent by the governance authority (which passes every permission check)
+    for an id that is not a market: the three Update* endpoints refuse only "already that value";
+    MsgGovCloseMarket always succeeds and leaves not-accepting-orders set, accepting-commitments
+    unset; fees and required attributes as for an existing market. *)
+Inductive pre_op :=
+| PreOrders (v : bool)
+| PreUserSettle (v : bool)
+| PreCommitments (v : bool)
+| PreClose
+| PreInterm (d : string)
+| PreFees (f : fee_msg)
+| PreAttrs (a : attr_msg).
+
+Definition pre_step (s : stored) (o : pre_op) : stored * bool :=
+  let m := s_mkt s in
+  let ao := m_accepting_orders m in
+  let us := m_user_settle m in
+  let ac := m_accepting_commitments m in
+  match o with
+  | PreOrders v => if Bool.eqb ao v then (s, false) else (set_flags_stored s v us ac, true)
+  | PreUserSettle v => if Bool.eqb us v then (s, false) else (set_flags_stored s ao v ac, true)
+  | PreCommitments v => if Bool.eqb ac v then (s, false) else (set_flags_stored s ao us v, true)
+  | PreClose => (set_flags_stored s false us false, true)
+  | PreInterm d => ({| s_mkt := set_interm m d; s_req_ask := s_req_ask s; s_req_bid := s_req_bid s;
+                       s_req_com := s_req_com s |}, true)
+  | PreFees f => (manage_fees_stored s f, fee_msg_valid f)
+  | PreAttrs a => match manage_req_attrs s a with Some s' => (s', true) | None => (s, false) end
+  end.
+
+Definition run_pre (ops : list pre_op) : stored :=
+  fold_left (fun s o => fst (pre_step s o)) ops blank_stored.
+
+(** setAllFlatFees / setAllFeeRatios: deleteAll of the prefix (every old entry goes), then one write
+    per given entry. *)
+Definition set_all_flats (old new : list coin) : list coin :=
+  fold_left (fun l c => set_flat c l) new (fold_left (fun l c => del_flat (denom_of c) l) old old).
+Definition set_all_ratios (old new : list ratio) : list ratio :=
+  fold_left (fun l r => set_ratio r l) new (fold_left (fun l r => del_ratio r l) old old).
+
+(** The indicator entries.  [entry] = the key is in the store.  setMarketAcceptingOrders deletes
+    the not-accepting-orders key when accepting and writes it otherwise; the other two setters write
+    their key when the flag is on and delete it otherwise - whatever was there. *)
+Definition write_not_accepting_orders (entry accepting : bool) : bool := if accepting then false else true.
+Definition write_indicator (entry on : bool) : bool := if on then true else false.
+(** setCommitmentSettlementBips / setIntermediaryDenom / setReqAttrs: write the value, or delete the
+    key when the value is zero / empty. *)
+Definition write_bips (old new : Z) : Z := if new =? 0 then 0 else new.
+Definition write_interm (old new : string) : string := if String.eqb new "" then ""%string else new.
+Definition write_reqs (old new : list bytes) : list bytes := match new with [] => [] | _ => new end.
+
+(** MsgGovCreateMarketRequest.ValidateBasic (required-attribute part), Keeper.CreateMarket and
+    storeMarket writing over whatever [old] holds under the id: [None] = rejected. *)
+Definition store_market (old : stored) (m : market) : option stored :=
+  let ra := map bytes_of (m_req_ask m) in
+  let rb := map bytes_of (m_req_bid m) in
+  let rc := map bytes_of (m_req_com m) in
+  if validate_req_attrs ra && validate_req_attrs rb && validate_req_attrs rc then
+    let '(na, oka) := normalize_req_attrs ra in
+    let '(nb, okb) := normalize_req_attrs rb in
+    let '(nc, okc) := normalize_req_attrs rc in
+    if oka && okb && okc then
+      let o := s_mkt old in
+      Some {| s_mkt :=
+                {| m_create_ask := set_all_flats (m_create_ask o) (m_create_ask m);
+                   m_create_bid := set_all_flats (m_create_bid o) (m_create_bid m);
+                   m_create_com := set_all_flats (m_create_com o) (m_create_com m);
+                   m_seller_flat := set_all_flats (m_seller_flat o) (m_seller_flat m);
+                   m_seller_ratios := set_all_ratios (m_seller_ratios o) (m_seller_ratios m);
+                   m_buyer_flat := set_all_flats (m_buyer_flat o) (m_buyer_flat m);
+                   m_buyer_ratios := set_all_ratios (m_buyer_ratios o) (m_buyer_ratios m);
+                   m_accepting_orders :=
+                     negb (write_not_accepting_orders (negb (m_accepting_orders o)) (m_accepting_orders m));
+                   m_user_settle := write_indicator (m_user_settle o) (m_user_settle m);
+                   m_accepting_commitments := write_indicator (m_accepting_commitments o) (m_accepting_commitments m);
+                   m_req_ask := []; m_req_bid := []; m_req_com := [];
+                   m_bips := write_bips (m_bips o) (m_bips m);
+                   m_interm := write_interm (m_interm o) (m_interm m) |};
+              s_req_ask := write_reqs (s_req_ask old) na;
+              s_req_bid := write_reqs (s_req_bid old) nb;
+              s_req_com := write_reqs (s_req_com old) nc |}
+    else None
+  else None.
 
 (** ** Fee quotes *)
 (** QueryServer.OrderFeeCalc: (creation fee options, settlement flat fee options, settlement ratio
